@@ -187,6 +187,7 @@ impl Ctx {
         let slow_errs = AtomicUsize::new(0);
         let snaps_ok = AtomicUsize::new(0);
         let reads_ok = AtomicUsize::new(0);
+        let torn = AtomicUsize::new(0);
         let done = AtomicBool::new(false);
         let budget_ms: u128 = 4000;
         let gate = std::sync::Barrier::new(nw + 2);
@@ -222,7 +223,7 @@ impl Ctx {
                     }
                 }));
             }
-            let (published, note, done, snaps_ok, reads_ok, gate) = (&published, &note, &done, &snaps_ok, &reads_ok, &gate);
+            let (published, note, done, snaps_ok, reads_ok, gate, torn) = (&published, &note, &done, &snaps_ok, &reads_ok, &gate, &torn);
             let ssrv = pick(nw);
             sc.spawn(move || {
                 let mut k = 0u8;
@@ -232,7 +233,13 @@ impl Ctx {
                     if v.is_nil() { std::thread::yield_now(); continue; }
                     let t0 = Instant::now();
                     k = k.wrapping_add(1);
-                    match catch_unwind(AssertUnwindSafe(|| ssrv.add_snapshot(cu, v, vec![9, k]))) {
+                    // the uploaded bytes say which version they are for (the id, then a filler derived from it), in
+                    // sizes from a few bytes to several megabytes: whoever reads a snapshot can tell whether id and
+                    // bytes come from one upload
+                    let size = [24usize, 1 << 20, 4 << 20, 300][k as usize % 4];
+                    let mut blob = v.as_bytes().to_vec();
+                    blob.resize(16 + size, v.as_bytes()[15]);
+                    match catch_unwind(AssertUnwindSafe(|| ssrv.add_snapshot(cu, v, blob))) {
                         Ok(Ok(())) => { snaps_ok.fetch_add(1, Ordering::SeqCst); }
                         Ok(Err(e)) => note("add_snapshot", t0, format!("{e:?}")),
                         Err(_) => note("add_snapshot", t0, "panic".into()),
@@ -252,7 +259,13 @@ impl Ctx {
                     }
                     let t0 = Instant::now();
                     match catch_unwind(AssertUnwindSafe(|| rsrv.get_snapshot(cu))) {
-                        Ok(Ok(_)) => { reads_ok.fetch_add(1, Ordering::SeqCst); }
+                        Ok(Ok(got)) => {
+                            reads_ok.fetch_add(1, Ordering::SeqCst);
+                            if let Some((vid, data)) = got {
+                                let whole = data.len() >= 16 && data[..16] == vid.as_bytes()[..] && data[16..].iter().all(|b| *b == vid.as_bytes()[15]);
+                                if !whole { torn.fetch_add(1, Ordering::SeqCst); }
+                            }
+                        }
                         Ok(Err(e)) => note("get_snapshot", t0, format!("{e:?}")),
                         Err(_) => note("get_snapshot", t0, "panic".into()),
                     }
@@ -281,9 +294,9 @@ impl Ctx {
         let extra_on_chain = chain.iter().filter(|x| !acc.contains(x)).count();
         let f = fast_errs.into_inner().unwrap();
         let first: Vec<String> = f.iter().filter(|x| !x.is_empty()).cloned().collect();
-        let line = format!("race fast_errors={} slow_errors={} accepted={} parents_twice={} orphans={} unacknowledged_on_chain={} walk={} snaps={} reads={} first={}",
+        let line = format!("race fast_errors={} slow_errors={} accepted={} parents_twice={} orphans={} unacknowledged_on_chain={} walk={} snaps={} reads={} torn_snapshots={} first={}",
             f.len(), slow_errs.load(Ordering::SeqCst), acc.len(), twice, orphans, extra_on_chain, if walk_err { "error" } else { "ok" },
-            if snaps_ok.load(Ordering::SeqCst) > 0 { "some" } else { "none" }, if reads_ok.load(Ordering::SeqCst) > 0 { "some" } else { "none" },
+            if snaps_ok.load(Ordering::SeqCst) > 0 { "some" } else { "none" }, if reads_ok.load(Ordering::SeqCst) > 0 { "some" } else { "none" }, torn.load(Ordering::SeqCst),
             if first.is_empty() { "-".to_string() } else { first.join(";") });
         self.emit(format!("race {c} {nw} {rounds}"), line);
     }
@@ -561,6 +574,15 @@ impl Ctx {
                 r.ok().flatten().unwrap_or(Uuid::nil())
             }
             "client" => self.client(num(1) as u32),
+            // ids that stand in an arithmetic relation to other ids (a replica, a test tool or an attacker may
+            // derive ids however it likes): xorc:A:B = client A's id XOR client B's id; xorl:A:B = client A's id
+            // XOR client B's latest version id; sumc:A:B = the two client ids added (wrapping)
+            "xorc" => Uuid::from_u128(self.client(num(1) as u32).as_u128() ^ self.client(num(2) as u32).as_u128()),
+            "xorl" => {
+                let l = self.accepted.get(&(num(2) as u32)).and_then(|v| v.last()).map(|x| x.0).unwrap_or(Uuid::nil());
+                Uuid::from_u128(self.client(num(1) as u32).as_u128() ^ l.as_u128())
+            }
+            "sumc" => Uuid::from_u128(self.client(num(1) as u32).as_u128().wrapping_add(self.client(num(2) as u32).as_u128())),
             // an id that is a well-formed UUID but was not minted by `Uuid::new_v4` (replicas and other
             // server implementations choose their ids as they like): version 7, version 1, all ones,
             // arbitrary bits
